@@ -605,6 +605,45 @@ Definition view_eqb (a b : view) : bool :=
   && option_eqb (list_eqb str_eqb) (v_scope a) (v_scope b) && option_eqb str_eqb (v_nonce a) (v_nonce b)
   && option_eqb Z.eqb (v_at_exp a) (v_at_exp b) && option_eqb Z.eqb (v_idt_exp a) (v_idt_exp b).
 
+(* ------------------------------------------------------------------ requested scope and granted scope *)
+(* What a client may be granted (Scopes.get_allowed_scopes): the allowed_scopes of its record when the operator
+   put them there, else every scope value the provider knows (the keys of its scope -> claims map; for the
+   provider of this check that is the regenerated op_scopes). *)
+Definition allowed_scopes_of (provider : list pystr) (client_allowed : option (list pystr)) : list pystr :=
+  match client_allowed with Some a => a | None => provider end.
+(* AuthzHandling.__call__ -> Scopes.filter_scopes: the granted scope is the REQUESTED values, in request order,
+   that are allowed; anything else is dropped without an error as long as deny_unknown_scopes is off
+   (op_deny_unknown_scopes, regenerated: check_unknown_scopes_policy).  It is written into the grant once, at
+   the authorization endpoint, and every later step reads it from there. *)
+Definition filter_scopes (provider : list pystr) (client_allowed : option (list pystr)) (requested : list pystr)
+  : list pystr :=
+  filter (fun s => str_in s (allowed_scopes_of provider client_allowed)) requested.
+Definition granted_scope (client_allowed : option (list pystr)) (requested : list pystr) : list pystr :=
+  filter_scopes op_scopes client_allowed requested.
+Definition subset (a b : list pystr) : bool := forallb (fun x => str_in x b) a.
+(* the record the authorization endpoint creates for a request (sub: C18) *)
+Definition grant_session (client sub : pystr) (client_allowed : option (list pystr)) (requested : list pystr)
+           (nonce : option pystr) (now at_life idt_life : Z) : session :=
+  mkSession client sub (granted_scope client_allowed requested) nonce (now + at_life)%Z (now + idt_life)%Z.
+
+(* A refresh request may state a scope (this library's relying party always does: it sends the scope it has on
+   record, or the narrower one its caller asks for).  RefreshTokenHelper.post_parse_request refuses a stated scope
+   that is not within the scope the refresh token stands for; process_request mints the new access token, ID Token
+   and refresh token for the stated scope, else for the scope the refresh token stands for, and the response
+   states that scope.  The grant itself keeps the scope it was given at the authorization endpoint.
+   `stands_for` is the originally granted scope for a refresh token minted by the code exchange and for the one
+   minted by the refresh that used such a token (Grant.find_scope of the PARENT of the presented refresh token) -
+   the two rounds the driver makes. *)
+Definition refresh_scope (stands_for : list pystr) (stated : option (list pystr)) : option (list pystr) :=
+  match stated with
+  | None => Some stands_for
+  | Some n => if subset n stands_for then Some n else None
+  end.
+(* the record every view of the refreshed tokens projects: as refresh_session, for the scope of THIS refresh *)
+Definition refresh_session_scoped (s : session) (r : Z * Z * Z) (sc : list pystr) : session :=
+  let s' := refresh_session s r in
+  mkSession (s_client s') (s_sub s') sc (s_nonce s') (s_at_exp s') (s_idt_exp s').
+
 (* ------------------------------------------------------------------ generated-case checkers *)
 (* one flow: configuration, inputs, the observed outcome *)
 Definition chk_flow (k : cfg * inp * outcome) : bool :=
@@ -649,3 +688,45 @@ Definition chk_refresh (k : session * (Z * Z * Z) * views_case) : bool :=
   session_eqb (refresh_session prev r) (k_session vc) && chk_views vc.
 Definition diag_refresh (k : session * (Z * Z * Z) * views_case) : session * list (string * view) :=
   let '(prev, r, vc) := k in (refresh_session prev r, diag_views vc).
+
+(* ------------------------------------------------------------------ requested vs granted: checkers *)
+Definition opt_scope (o : option view) : option (list pystr) :=
+  match o with Some v => v_scope v | None => None end.
+(* every scope statement the driver could read for one token set *)
+Definition observed_scopes (k : views_case) : list (option (list pystr)) :=
+  [v_scope (k_op_session k); v_scope (k_rp k); opt_scope (k_token_response k); opt_scope (k_introspection k);
+   opt_scope (k_jwt k); opt_scope (k_id_token k); opt_scope (k_userinfo k)].
+Definition scope_is (g : list pystr) (o : option (list pystr)) : bool :=
+  match o with Some l => list_eqb str_eqb l g | None => true end.
+(* one completed flow: the client's allowed_scopes (None = its record has none), the scope the relying party asked
+   for, further scope statements outside the views (authorization response, the access token's own record), the
+   views.  The provider's record holds granted_scope of the two, every view states exactly it, and it is within the
+   requested scope.  Lists are sorted by the driver (filter keeps the order of the request). *)
+Definition chk_grant (k : option (list pystr) * list pystr * list (list pystr) * views_case) : bool :=
+  let '(al, req, extra, vc) := k in
+  let g := granted_scope al req in
+  list_eqb str_eqb (s_scope (k_session vc)) g
+  && forallb (scope_is g) (observed_scopes vc) && forallb (fun l => list_eqb str_eqb l g) extra
+  && subset g req.
+Definition diag_grant (k : option (list pystr) * list pystr * list (list pystr) * views_case)
+  : list pystr * list (option (list pystr)) * list (list pystr) :=
+  let '(al, req, extra, vc) := k in (granted_scope al req, observed_scopes vc, extra).
+
+(* one refresh round with the scope the refresh REQUEST stated (read off the wire): allowed_scopes and requested scope
+   of the flow, the scope the grant holds after the round, the token-level record before the round, (clock,
+   lifetimes), the stated scope, the views after the round (k_session: the record of the refreshed access token). *)
+Definition chk_refresh_scoped
+  (k : option (list pystr) * list pystr * list pystr * session * (Z * Z * Z) * option (list pystr) * views_case) : bool :=
+  let '(al, req, grant_after, prev, r, stated, vc) := k in
+  let g := granted_scope al req in
+  list_eqb str_eqb grant_after g
+  && match refresh_scope g stated with
+     | Some sc => session_eqb (refresh_session_scoped prev r sc) (k_session vc) && chk_views vc
+                  && forallb (scope_is sc) (observed_scopes vc)
+     | None => false
+     end.
+Definition diag_refresh_scoped
+  (k : option (list pystr) * list pystr * list pystr * session * (Z * Z * Z) * option (list pystr) * views_case)
+  : list pystr * option (list pystr) * list (option (list pystr)) :=
+  let '(al, req, grant_after, prev, r, stated, vc) := k in
+  (granted_scope al req, refresh_scope (granted_scope al req) stated, observed_scopes vc).
